@@ -435,10 +435,7 @@ func execPhase(base *world.World, tag string, phase int, steps []seqStep, storeK
 			if err != nil {
 				return nil, err
 			}
-			if _, err := wr.GetLatest(); err != nil {
-				wr.Close()
-				return nil, err
-			}
+			_, _ = wr.GetLatest() // (the in-memory store wants the read before the write; what it answers is the code's business, not this step's)
 			if err := wr.Set([]byte(out)); err != nil {
 				wr.Close()
 				return nil, err
@@ -458,21 +455,23 @@ func execPhase(base *world.World, tag string, phase int, steps []seqStep, storeK
 			}
 			snap := takeSnapshot(w, st.p)
 			st.db.Close()
-			os.Remove(st.path)
-			os.Remove(st.path + "-journal")
-			raw, err := sql.Open("sqlite3", st.path)
-			if err != nil {
-				return nil, err
-			}
-			if _, err := raw.Exec(pinnedSchema); err != nil {
-				return nil, err
-			}
-			for name, b := range snap.raw {
-				if _, err := raw.Exec("INSERT OR REPLACE INTO chkpts (logID, chkpt, range) VALUES (?, ?, NULL)", w.Logs[name].ID, b); err != nil {
+			if s.Cls != "restart" { // ("restart": the same file as it is; otherwise the file as the release would have written it)
+				os.Remove(st.path)
+				os.Remove(st.path + "-journal")
+				raw, err := sql.Open("sqlite3", st.path)
+				if err != nil {
 					return nil, err
 				}
+				if _, err := raw.Exec(pinnedSchema); err != nil {
+					return nil, err
+				}
+				for name, b := range snap.raw {
+					if _, err := raw.Exec("INSERT OR REPLACE INTO chkpts (logID, chkpt, range) VALUES (?, ?, NULL)", w.Logs[name].ID, b); err != nil {
+						return nil, err
+					}
+				}
+				raw.Close()
 			}
-			raw.Close()
 			db, err := sql.Open("sqlite3", st.path)
 			if err != nil {
 				return nil, err
